@@ -247,7 +247,9 @@ var structMuts = []structMut{
 	}},
 	// the same key listed twice and ONE key's signature supplied twice: m distinct keys did not sign
 	{"dup-key-counted", func(t *rapid.T, tx *txSpec) string {
-		si, s := pickSet(t, tx, func(s *setSpec) bool { return s.Multi && s.M >= 2 && signedBy(s, 2) && s.Sigs[0].Signer != s.Sigs[1].Signer })
+		si, s := pickSet(t, tx, func(s *setSpec) bool {
+			return s.Multi && s.M >= 2 && signedBy(s, 2) && s.Sigs[0].Signer != s.Sigs[1].Signer
+		})
 		if s == nil {
 			return ""
 		}
